@@ -58,6 +58,11 @@ struct Outcome {
 };
 // a clause that several properties state: reported under the running check's own property if it is one of `also`
 std::string owned(const std::string& clause, std::initializer_list<const char*> also);
+#define FAIL_STOP(cl, det)                                                                                             \
+  do {                                                                                                                 \
+    o.fail((cl), (det));                                                                                               \
+    return;                                                                                                            \
+  } while (0)
 #define CHECK_FAIL(cl, det)                                                                                            \
   do {                                                                                                                 \
     if (o.fail((cl), (det)))                                                                                           \
